@@ -47,7 +47,7 @@ Has(b) ==
 (* A direct writer with these options cannot be constructed at all: CARv2 needs a target that can be
    written at an offset, a plain stream cannot.  The deferred writer must refuse likewise -- at the first
    Put, since it constructs nothing before -- and write nothing.  The listeners have been told by then. *)
-Refuses(c) == c.target = "stream" /\ ~c.v1
+Refuses(c) == c.target = "stream" /\ ~c.v1        \* target "wstream": a stream that is also an io.WriterAt is not refused
 
 Put(b) ==
   IF d.closed THEN Rec([op |-> "put", b |-> b], {"closed"}, <<>>, d)          \* no callback after Close
